@@ -353,3 +353,157 @@ pub fn build_ref<const S: usize, const Z: usize>(sh: &Shape) -> RefMem<S> {
     }
     m
 }
+
+// ------------------------------------------------------------------------------------
+// Ghost view of a memory state: what the harness knows it put where (pointer identity,
+// contents, context fields).  Used by the memory contract lemmas (C17) and by the
+// receiver lemmas (rx.rs).
+// ------------------------------------------------------------------------------------
+
+#[derive(Copy, Clone)]
+pub struct BufG {
+    pub ptr: *const u8,
+    pub len: usize,
+    pub bytes: [u8; 8],
+}
+
+pub const NOBUF: BufG = BufG { ptr: core::ptr::null(), len: 0, bytes: [0; 8] };
+
+#[derive(Copy, Clone)]
+pub struct CtxG {
+    pub label: Label,
+    pub ptype: u16,
+    pub frag_id: u8,
+    pub total_len: u16,
+    pub pdu_len: u16,
+    pub reuse: bool,
+    pub n_ext: usize,
+}
+
+pub struct Ghost {
+    pub slot: [Option<(CtxG, BufG)>; 3],
+    pub free: [BufG; 4],
+    pub nfree: usize,
+}
+
+pub fn mk_buf(n: usize) -> (Box<[u8]>, BufG) {
+    // n is concrete at every call site
+    let bytes: [u8; 8] = kani::any();
+    let b: Box<[u8]> = if n == 3 {
+        Box::new([bytes[0], bytes[1], bytes[2]])
+    } else if n == 4 {
+        Box::new([bytes[0], bytes[1], bytes[2], bytes[3]])
+    } else {
+        Box::new([bytes[0], bytes[1], bytes[2], bytes[3], bytes[4], bytes[5]])
+    };
+    let g = BufG { ptr: b.as_ptr(), len: b.len(), bytes };
+    (b, g)
+}
+
+pub fn ctx_ghost(c: &DecapContext) -> CtxG {
+    CtxG {
+        label: c.label,
+        ptype: c.protocol_type,
+        frag_id: c.frag_id,
+        total_len: c.total_len,
+        pdu_len: c.pdu_len,
+        reuse: c.from_label_reuse,
+        n_ext: c.extensions_header.len(),
+    }
+}
+
+pub fn ctx_matches(c: &DecapContext, g: &CtxG) -> bool {
+    label_eq(&c.label, &g.label)
+        && c.protocol_type == g.ptype
+        && c.frag_id == g.frag_id
+        && c.total_len == g.total_len
+        && c.pdu_len == g.pdu_len
+        && c.from_label_reuse == g.reuse
+        && c.extensions_header.len() == g.n_ext
+}
+
+pub fn buf_matches(b: &[u8], g: &BufG) -> bool {
+    let j = any_len(7);
+    b.as_ptr() == g.ptr && b.len() == g.len && (j >= g.len || b[j] == g.bytes[j])
+}
+
+
+/// RefMem in shape `sh` with storage size Z (= configured size), plus its ghost view.
+pub fn build_ref_ghost<const S: usize, const Z: usize>(sh: &Shape) -> (RefMem<S>, Ghost) {
+    let mut m = <RefMem<S> as GseDecapMemory>::new(S, Z, 0, 0);
+    let mut g = Ghost { slot: [None, None, None], free: [NOBUF; 4], nfree: 0 };
+    let mut k = 0;
+    while k < S {
+        if sh.occ[k] {
+            let ctx = any_context(S, k, Z, sh.ext);
+            let (b, bg) = mk_buf(Z);
+            g.slot[k] = Some((ctx_ghost(&ctx), bg));
+            m.slots[k] = Some((ctx, b));
+        }
+        k += 1;
+    }
+    let mut f = 0;
+    while f < sh.free {
+        let (b, bg) = mk_buf(Z);
+        g.free[f] = bg;
+        m.free[f] = Some(b);
+        f += 1;
+    }
+    g.nfree = sh.free;
+    (m, g)
+}
+
+/// How many places of the memory hold the buffer with this address.
+pub fn count_ptr<const S: usize>(m: &RefMem<S>, p: *const u8) -> usize {
+    let mut n = 0;
+    let mut k = 0;
+    while k < S {
+        if let Some((_, b)) = &m.slots[k] {
+            if b.as_ptr() == p {
+                n += 1;
+            }
+        }
+        k += 1;
+    }
+    let mut f = 0;
+    while f < REF_FREE {
+        if let Some(b) = &m.free[f] {
+            if b.as_ptr() == p {
+                n += 1;
+            }
+        }
+        f += 1;
+    }
+    n
+}
+
+/// Number of buffers held by the memory (free + attached to a reassembly).
+pub fn count_bufs<const S: usize>(m: &RefMem<S>) -> usize {
+    let mut n = m.free_count();
+    let mut k = 0;
+    while k < S {
+        if m.slots[k].is_some() {
+            n += 1;
+        }
+        k += 1;
+    }
+    n
+}
+
+/// A slot still holds exactly what the ghost says (context fields, same buffer, same bytes).
+pub fn slot_unchanged<const S: usize>(m: &RefMem<S>, g: &Ghost, k: usize) -> bool {
+    match (&m.slots[k], &g.slot[k]) {
+        (None, None) => true,
+        (Some((c, b)), Some((cg, bg))) => ctx_matches(c, cg) && buf_matches(b, bg),
+        _ => false,
+    }
+}
+
+/// Complete-or-padding header stub for frame-walk harnesses (two calls, two kinds).
+pub fn hdr_complete_or_padding(w: u16) -> Option<(usize, PktType, LabelType)> {
+    if w & 0xF000 == 0 {
+        return None;
+    }
+    kani::assume(w & 0xC000 == 0xC000);
+    Some(((w & 0x0FFF) as usize, PktType::CompletePkt, lt_bits(w)))
+}
